@@ -126,6 +126,10 @@ class G:
         r = self.r
         n = segments or r.choice([1, 1, 2, 2, 3, 4])
         segs = [self.segment(unusual) for _ in range(n)]
+        if segments is None and r.random() < 0.012:
+            # a deep category path: 10 to 24 levels, now and then more than a hundred (short components)
+            n = r.choice([10, 12, 16, 17, 18, 24, 24, 101, 130])
+            segs = [self.word(1, 3, 0) for _ in range(n)]
         if r.random() < unusual * 0.4:
             # an empty category component: doubled, trailing or leading separator
             k = r.choice(['double', 'trail', 'trail', 'lead', 'only'])
@@ -214,11 +218,15 @@ class G:
         depth = r.choice([0, 1, 1, 2, 2, 3]) if depth is None else depth
         small = (depth > 3) if small is None else small
         leaves = leaves or (LEAVES[: r.randint(2, len(LEAVES))] + ([self.name(1, unusual)] if r.random() < 0.3 else []))
+        # sizes beyond a dozen (and beyond 32) now and then: sort routines, lookups, maps and buffers change behaviour there
+        big = per_layer is None and depth <= 2 and r.random() < 0.06
+        if big:
+            leaves = list(leaves) + [self.word(3, 7, 0).encode() for _ in range(r.randint(10, 40))]
         layers = []
         used = set(leaves)
         recs = []
         for lvl in range(depth + 1):
-            n = per_layer or r.randint(1, 4)
+            n = per_layer or (r.randint(13, 22) if big else r.randint(1, 4))
             layer = []
             for _ in range(n):
                 for _try in range(20):
@@ -236,7 +244,7 @@ class G:
                 if r.random() < empty:
                     recs.append((nm, []))
                     continue
-                k = r.randint(1, 5)
+                k = r.randint(13, 45) if (big and r.random() < 0.4) else r.randint(1, 5)
                 ings = []
                 for j in range(k):
                     if lvl > 0 and (j == 0 and i == 0):
@@ -282,9 +290,11 @@ class G:
         r = self.r
         book = book or []
         recipes = [n for n, _ in book]
-        days = r.randint(1, 6) if days is None else days
+        bigdays = days is None and r.random() < 0.04
+        days = (r.randint(14, 40) if bigdays else r.randint(1, 6)) if days is None else days
+        bigday = max_entries == 8 and r.random() < 0.06
         extra = []
-        for _ in range(r.randint(1, 4)):
+        for _ in range(r.randint(15, 45) if bigday else r.randint(1, 4)):
             nm = self.name(unusual=unusual)
             if self.wf_name(nm) and nm not in recipes:
                 extra.append(nm)
@@ -292,7 +302,7 @@ class G:
         for _ in range(days):
             d = r.choice(dates or WINDOW)
             ents = []
-            for _ in range(r.randint(0, max_entries)):
+            for _ in range(r.randint(13, 100) if (bigday and r.random() < 0.6) else r.randint(0, max_entries)):
                 roll = r.random()
                 if ents and r.random() < repeat:
                     food = r.choice(ents)[0]
